@@ -258,11 +258,21 @@ func c02ContentCases(thorough bool) []string {
 }
 
 func runC02(r *Run) {
-	r.Rule("round trip Parse -> String -> Parse (tree through exported accessors incl. IntegerNode vs NumericNode, mode, predicate flag; String a fixed point; MarshalText/UnmarshalText, MarshalBinary/UnmarshalBinary, Value/Scan(string), Scan([]byte); same Query results on 29 documents) over: every path of the full language with <= 3 nodes and every construct nested in filters/subscripts; every precedence/associativity shape (each operator as left/right/sole operand of each other, with and without trailing accessors, minimal and full parentheses); the numeric spelling grid in every position; every code point of a boundary set (thorough: every Unicode scalar value) as string, key, variable, starts-with argument, datetime template, like_regex pattern, and all ordered pairs of a 39-rune boundary set; every .** bound pair over {0..3,last,2^32-2..2^32}; every flag string of length <= 3; and every input the implementation accepts among all strings of length <= 4 over the C04 alphabet and all lexeme sequences of length <= 3. non-trivial = accepted inputs (distinct)")
+	r.Rule("round trip Parse -> String -> Parse (tree through exported accessors incl. IntegerNode vs NumericNode, mode, predicate flag; String a fixed point; MarshalText/UnmarshalText, MarshalBinary/UnmarshalBinary, Value/Scan(string), Scan([]byte); same Query results on 29 documents) over: every path of the full language with <= 3 nodes and every construct nested in filters/subscripts; literals of every kind (negative numbers in particular) followed by each of 48 step kinds, alone and in 7 operand positions; every precedence/associativity shape (each operator as left/right/sole operand of each other, with and without trailing accessors, minimal and full parentheses); the numeric spelling grid in every position; every code point of a boundary set (thorough: every Unicode scalar value) as string, key, variable, starts-with argument, datetime template, like_regex pattern, and all ordered pairs of a 39-rune boundary set; every .** bound pair over {0..3,last,2^32-2..2^32}; every flag string of length <= 3; and every input the implementation accepts among all strings of length <= 4 over the C04 alphabet and all lexeme sequences of length <= 3. non-trivial = accepted inputs (distinct)")
 	var texts []string
 	g := newFullGen()
 	for _, e := range append(g.all(3), g.constructPairs()...) {
 		texts = append(texts, Path{E: e}.String(), Path{Strict: true, E: e}.String())
+	}
+	// literals (negative ones in particular: the sign binds looser than an accessor) followed by every
+	// kind of step, alone and as operands
+	for _, lit := range []*Expr{eInt(-2), eNum(-2.5), eNum(-0.5), eInt(2), eNum(2.5), eStr("a"), eTrue(), eNull(), eInt(-9223372036854775807), eVar("x")} {
+		for _, t := range c03Trail() {
+			for _, e := range []*Expr{lit.withSteps(t), lit.withSteps(t, sMethod("abs")), eArith("+", eInt(1), lit.withSteps(t)), eArith("*", lit.withSteps(t), eInt(3)), eNeg(lit.withSteps(t)),
+				eCmp("==", lit.withSteps(t), lit), eRoot(sIndex(sub1(lit.withSteps(t)))), eRoot(sFilter(eCmp(">", eCur(), lit.withSteps(t))))} {
+				texts = append(texts, Path{E: e}.String())
+			}
+		}
 	}
 	var cases []spellCase
 	emit := func(sc spellCase) { cases = append(cases, sc) }
